@@ -206,6 +206,8 @@ Lemma rnow_put st k e : rnow (store_put st k e) = rnow st.               Proof. 
 Lemma rnow_del st k : rnow (store_del st k) = rnow st.                   Proof. reflexivity. Qed.
 Lemma incl_put st k e : expiry_inclusive (store_put st k e) = expiry_inclusive st. Proof. reflexivity. Qed.
 Lemma incl_del st k : expiry_inclusive (store_del st k) = expiry_inclusive st.     Proof. reflexivity. Qed.
+Lemma exp_after_some st ms : exp_after st (Some ms) = Some (rnow st + ms). Proof. reflexivity. Qed.
+Lemma exp_after_none st : exp_after st None = None.                       Proof. reflexivity. Qed.
 Lemma eqb_true_r b : Bool.eqb b true = b.                                 Proof. destruct b; reflexivity. Qed.
 Lemma eqb_false_r b : Bool.eqb b false = negb b.                          Proof. destruct b; reflexivity. Qed.
 
@@ -216,7 +218,8 @@ Lemma eqb_false_r b : Bool.eqb b false = negb b.                          Proof.
   lua_ne_str lua_ne_str_bool lua_ne_bool_str lua_ne_str_nil lua_ne_bool lua_ne_znum_nil lua_ne_nil
   lua_not_eq lua_tonumber_znum lua_tonumber_int lua_tonumber_str lua_tonumber_bool lua_tonumber_nil
   truthy_znum truthy_bool truthy_str truthy_status truthy_nil
-  evalue_mk eexp_mk rnow_put rnow_del incl_put incl_del eqb_true_r eqb_false_r negb_involutive : luaval.
+  evalue_mk eexp_mk rnow_put rnow_del incl_put incl_del exp_after_some exp_after_none
+  andb_false_l andb_true_l andb_false_r andb_true_r eqb_true_r eqb_false_r negb_involutive : luaval.
 
 (* numerals that arrive as strings (ARGV, values read from the store) are coerced by arithmetic *)
 Definition numeric (v : lval) (z : Z) : Prop := as_num v = Some (inject_Z z).
@@ -419,7 +422,7 @@ Ltac lua_step_core :=
       cbn [so_nx so_xx so_ttl]
   | |- after (match (if ?c then _ else _) with _ => _ end) _ _ = _ =>
       let H := fresh "C" in destruct c eqn:H; prune
-  | |- after (match Ok _ with _ => _ end) _ _ = _ => cbv iota zeta; cbn [so_nx so_xx so_ttl andb negb exp_after]
+  | |- after (match Ok _ with _ => _ end) _ _ = _ => cbv iota zeta; cbn [so_nx so_xx so_ttl]; lua_values
   | |- after (match Err _ with _ => _ end) _ _ = _ => cbv iota
   | |- after (Ok _, _) _ _ = _ => rewrite after_ok; cbv beta zeta
   | |- after (Err _, _) _ _ = _ => rewrite after_err
